@@ -30,6 +30,7 @@ import (
 	"net/http"
 	"os"
 	"path/filepath"
+	"regexp"
 	"runtime"
 	"strings"
 	"sync"
@@ -83,6 +84,7 @@ type vfC09World struct {
 	dialErr  bool
 	returned bool
 	panicked string
+	rootGoid string // the goroutine running dispatchConnection on this world's peer connection
 	// target script
 	dialMode   string // ok | fail | wfail
 	reply      []byte
@@ -216,6 +218,11 @@ func (c *vfC09Peer) SetWriteDeadline(t time.Time) error { return nil }
 // the server's connection to the redirect target, as handed out by the scripted RedirDialer
 type vfC09Web struct {
 	w         *vfC09World
+	// ordering window of goWeb (prefix replay vs. the relay): the FIRST Write call is parked, see Write
+	wcalls    int    // Write calls that have arrived (parked one included)
+	parked    bool   // the first Write call is waiting
+	overtaken bool   // a second Write call arrived while the first was parked and was served first
+	sched     string // what was decided, for the replay
 	got       []byte // what the target received
 	writes    int
 	firstLen  int // length of the first write (the replayed prefix)
@@ -261,10 +268,114 @@ func (c *vfC09Web) Read(p []byte) (int, error) {
 	}
 }
 
+// The redirect target's connection is owned by the harness (the dial seam).  goWeb must write the consumed first-packet
+// prefix to it BEFORE anything the relay copies from the peer.  To make that order observable whatever the scheduler
+// does, the FIRST Write call that arrives here is parked until
+//   (a) a second Write call arrives - it is served first, then the parked one (the target sees the permutation), or
+//   (b) every other goroutine of the connection under test (frames of dispatchConnection / its closures / common.Copy)
+//       has finished or is parked in a Read of one of the two scripted connections: nobody else can write.
+// (b) is read off runtime.Stack wait states, polled with runtime.Gosched - no sleep takes part in the decision.
+// On the unchanged code the first Write is issued by the dispatching goroutine before any relay goroutine exists, so
+// (b) holds at once and nothing changes.
+var vfC09ParkFirstTargetWrite = false
+
+var vfC09GoHdr = regexp.MustCompile(`^goroutine (\d+) \[([^\],]+)`)
+var vfC09StackBuf = make([]byte, 1<<22)
+var vfC09StackMu sync.Mutex
+
+func vfC09Goid() string {
+	var buf [64]byte
+	n := runtime.Stack(buf[:], false)
+	if m := vfC09GoHdr.FindSubmatch(buf[:n]); m != nil {
+		return string(m[1])
+	}
+	return "?"
+}
+
+var vfC09GoParent = regexp.MustCompile(`(?m)^created by .* in goroutine (\d+)$`)
+
+// are all OTHER goroutines of THIS connection under test - the goroutine running dispatchConnection (root) and
+// everything it (transitively) started - finished or parked in a Read of one of the two scripted connections?
+// returns also a short description of the ones that are not
+func vfC09OthersQuiet(self, root string) (bool, string) {
+	vfC09StackMu.Lock()
+	defer vfC09StackMu.Unlock()
+	n := runtime.Stack(vfC09StackBuf, true)
+	for n == len(vfC09StackBuf) {
+		vfC09StackBuf = make([]byte, 2*len(vfC09StackBuf))
+		n = runtime.Stack(vfC09StackBuf, true)
+	}
+	type gor struct{ id, state, parent, body string }
+	var all []gor
+	for _, g := range strings.Split(string(vfC09StackBuf[:n]), "\n\n") {
+		m := vfC09GoHdr.FindStringSubmatch(g)
+		if m == nil {
+			continue
+		}
+		parent := ""
+		if pm := vfC09GoParent.FindStringSubmatch(g); pm != nil {
+			parent = pm[1]
+		}
+		all = append(all, gor{m[1], m[2], parent, g})
+	}
+	family := map[string]bool{root: true}
+	for changed := true; changed; {
+		changed = false
+		for _, g := range all {
+			if !family[g.id] && family[g.parent] {
+				family[g.id] = true
+				changed = true
+			}
+		}
+	}
+	busy := ""
+	for _, g := range all {
+		if !family[g.id] || g.id == self {
+			continue
+		}
+		inRead := strings.Contains(g.body, "vfC09Peer).Read") || strings.Contains(g.body, "vfC09Web).Read")
+		if g.state == "sync.Cond.Wait" && inRead {
+			continue
+		}
+		busy += "g" + g.id + "[" + g.state + "] "
+	}
+	return busy == "", busy
+}
+
 func (c *vfC09Web) Write(p []byte) (int, error) {
 	w := c.w
 	w.mu.Lock()
 	defer w.mu.Unlock()
+	c.wcalls++
+	if vfC09ParkFirstTargetWrite && c.wcalls == 1 {
+		c.parked = true
+		self := vfC09Goid()
+		polls := 0
+		for !c.overtaken && !c.closed {
+			w.mu.Unlock()
+			quiet, _ := vfC09OthersQuiet(self, w.rootGoid)
+			if !quiet {
+				runtime.Gosched()
+			}
+			w.mu.Lock()
+			polls++
+			if quiet {
+				break
+			}
+		}
+		c.parked = false
+		if c.overtaken {
+			c.sched = fmt.Sprintf("first-write(%dB)-parked,second-write-served-first,polls=%d", len(p), polls)
+		} else {
+			c.sched = fmt.Sprintf("first-write(%dB)-parked,no-other-writer-possible,polls=%d", len(p), polls)
+		}
+	} else if c.parked && !c.overtaken {
+		// the second writer while the first is parked: served now, ahead of it
+		defer func() {
+			c.overtaken = true
+			w.cond.Broadcast()
+		}()
+	}
 	if c.closed {
 		return 0, net.ErrClosed
 	}
@@ -351,6 +462,9 @@ func vfC09NewWorld(chunks [][]byte, eof bool, dialMode string, reply []byte, aft
 // run dispatchConnection on the world's peer connection (own goroutine: it does not return for sessions)
 func (w *vfC09World) start(sta *State) {
 	go func() {
+		w.mu.Lock()
+		w.rootGoid = vfC09Goid()
+		w.mu.Unlock()
 		defer func() {
 			if r := recover(); r != nil {
 				buf := make([]byte, 4096)
@@ -477,6 +591,7 @@ type vfC09Obs struct {
 	FinDials          int  // redirect dials over the whole life of the connection (phase 1 + after the hang-up)
 	FinRet            bool // dispatchConnection had returned at the end of phase 2
 	PeerWFailed       bool // the scripted write failure was hit
+	TargetSched       string // how the first Write on the target connection was scheduled (ordering window of goWeb)
 }
 
 // execute one scenario: phase 1 = until settled; phase 2 = the peer hangs up, until settled again
@@ -536,6 +651,9 @@ func vfC09RunScenarioX(sta *State, chunks [][]byte, eof bool, dialMode string, r
 		o.FinRet = w.returned
 		o.PeerWFailed = w.peer.failedOnce
 		if w.web != nil {
+			o.TargetSched = w.web.sched
+		}
+		if w.web != nil {
 			o.FinWebClosed = w.web.closed
 			o.FinTarget = append([]byte{}, w.web.got...)
 		}
@@ -565,6 +683,9 @@ func (o vfC09Obs) String() string {
 		vfC09B(o.FinRet), vfC09B(o.PeerWFailed))
 	if o.DialAddr != "" {
 		s += " addr=" + o.DialAddr
+	}
+	if o.TargetSched != "" {
+		s += " tsched=" + o.TargetSched
 	}
 	if o.Panicked != "" {
 		s += " PANIC=" + strings.ReplaceAll(o.Panicked, " ", "_")
